@@ -143,6 +143,7 @@ CONFIGS = {
     'metal-J': dict(length='angstrom', time='ps', energy='J', charge='C'),
     'cm-eV': dict(length='cm', mass='amu', energy='eV', charge='e'),
     'random': dict(seed=20240928),      # numericalunits' random working units: all five base units non-trivial
+    'random2': dict(seed=7),            # (a second draw: what one random configuration leaves behind must not survive)
     # named time units next to a derived length / a derived mass / nothing derived; a single keyword
     'amu-fs-eV': dict(mass='amu', time='fs', energy='eV', charge='e'),          # length derived
     'um-ns-kJ': dict(length='um', time='ns', energy='kJ'),                      # mass derived, charge left in SI
@@ -163,8 +164,8 @@ UNITS = {
     'time': ['ps', 's', 'fs'],
     'velocity': ['angstrom/ps', 'm/s', 'nm/fs'],
     'area*': ['angstrom^2', 'nm*nm'],
-    'temperature': ['K'],
-    'misc': ['THz', 'C/m^2', 'V/m', 'kg/m^3', 'J/(kg*K)'],
+    'temperature': ['K', 'mK', 'eV/K', 'K/ps', 'kJ/mol/K', 'J/(kg*K)', 'K^2', 'K*nm'],
+    'misc': ['THz', 'C/m^2', 'V/m', 'kg/m^3'],
 }
 ALL_UNITS = [u for us in UNITS.values() for u in us]
 
@@ -181,7 +182,7 @@ SI_UNITS = {
     'fs': (1e-15, (0, 0, 1, 0, 0)),
     'Hz': (1.0, (0, 0, -1, 0, 0)), 'THz': (1e12, (0, 0, -1, 0, 0)),
     'C': (1.0, (0, 0, 0, 1, 0)), 'e': (1.602176634e-19, (0, 0, 0, 1, 0)), 'A': (1.0, (0, 0, -1, 1, 0)),
-    'K': (1.0, (0, 0, 0, 0, 1)),
+    'K': (1.0, (0, 0, 0, 0, 1)), 'mK': (1e-3, (0, 0, 0, 0, 1)),
     'J': (1.0, (2, 1, -2, 0, 0)), 'mJ': (1e-3, (2, 1, -2, 0, 0)), 'kJ': (1e3, (2, 1, -2, 0, 0)),
     'eV': (1.602176634e-19, (2, 1, -2, 0, 0)),
     'N': (1.0, (1, 1, -2, 0, 0)), 'nN': (1e-9, (1, 1, -2, 0, 0)),
@@ -418,7 +419,7 @@ def _gen_cfg(rng):
     """a configuration name: one of CONFIGS or a generated keyword set (1-4 of length / mass / time / energy / charge
     with units from CFG_POOL; with an energy unit at most two of length, mass, time, so that nothing is given twice)."""
     if rng.random() < 0.65:
-        return rng.choice(list(CONFIGS))
+        return rng.choice(list(CONFIGS) + ['random', 'random2'])
     keys = rng.sample(list(CFG_POOL), rng.randint(1, 4))
     if 'energy' in keys and all(k in keys for k in ('length', 'mass', 'time')):
         keys.remove(rng.choice(['length', 'mass', 'time']))
